@@ -13,7 +13,7 @@ DECIDING_MONITORS = ["C02.h.post"]
 PASSIVE_UNDER_TESTS = True
 RULE = ("cases = h / h2 / h3 on (n,d) data, d=2..4, per-axis bins of different classes and counts (edges, gapped pairs, "
         "right-open / right-closed binning objects, int, method names with per-axis argument lists), every column in its own "
-        "range so that an axis mix-up is visible; non-trivial = asymmetric shape, >= 1 coordinate exactly on a last edge, "
+        "range so that an axis mix-up is visible; rows with NaN (dropped) and with infinite coordinates of either / both signs (missed); non-trivial = asymmetric shape, >= 1 coordinate exactly on a last edge, "
         ">= 1 row outside the bins; distinct by hash of (bins, rows, weights, entry form)")
 ASSUMPTIONS = [
     "membership is judged on the reported edges and on each binning's own includes_right_edge flag",
